@@ -1356,7 +1356,10 @@ def run_c06_whole_field(ctx: common.Ctx):
                     hist.append(f'{p_}.{name} = deepcopy({name}) with one element popped')
                 setattr(m, name, dc)
             except Exception as e:
-                hist[-1] += f' -> {type(e).__name__}'
+                # a candidate collected before an earlier assignment of this loop may have left the document since
+                # (its tokens are gone: copying it raises) - not a step of this scenario
+                if hist:
+                    hist[-1] += f' -> {type(e).__name__}'
                 continue
             for step in range(2):
                 if step == 1:
